@@ -1465,7 +1465,9 @@ impl<T: Transport + 'static> SyncEngine<T> {
         }
 
         // Create integrity verifier for checksum computation
-        let checksum_type = if self.checksum {
+        let checksum_type = if self.checksum || self.verification_mode == ChecksumType::None {
+            // Verification always compares contents: with `--mode fast` (no checksums) every
+            // pair of files would otherwise "match" whatever they contain
             ChecksumType::Fast // Use xxHash3 for fast verification
         } else {
             self.verification_mode // Use user-specified mode
